@@ -870,7 +870,13 @@ def check_rst_include_md(ctx, case):
         except Exception as e:
             ctx.fail(f"exception:{type(e).__name__}:rst-include-md", case, f"rendering raised {e!r}", None, repr(e))
             return False
-    a, b = rubricise([canon(c) for c in dw.children]), rubricise([canon(c) for c in dp.children])
+    def eof_norm(cs):
+        # docutils hands the file to the parser without its final newline: a raw HTML block at the end of the
+        # file then lacks the trailing "\n" (markdown-it detail on the docutils route)
+        return [(c[0], c[1], tuple((k[0], k[1].rstrip("\n")) if k[0] == "#text" else k for k in c[2])) if c[0] == "raw"
+                else (c if c[0] == "#text" else (c[0], c[1], tuple(eof_norm(c[2])))) for c in cs]
+    a = eof_norm(rubricise([canon(c) for c in dw.children]))
+    b = eof_norm(rubricise([canon(c) for c in dp.children]))
     if a != b:
         ctx.fail("transparent:rst-include-md", case, "eval-rst include of a Markdown file differs from the text in place: "
                  + str(first_diff(a, b)), expected=show(b), observed=show(a))
